@@ -18,7 +18,7 @@ LEVEL = "exploration"
 RULE = ("messages of 0..3 blocks (thorough: up to 40) sent in alternating directions between two real SecsIProtocol "
         "endpoints over a simulated line with chunkings (whole, every byte, random cuts); one header/data/checksum byte "
         "flipped in flight at every position of a single-block and a two-block message (enumerated) and at random "
-        "positions otherwise; distinct by (direction, size, chunking, corruption position); all non-trivial")
+        "positions otherwise; distinct by (direction, size, chunking, corruption position); all non-trivial; plus: 3-5 block messages over a slow line (pauses of 0.45-0.8 T4 between blocks, more than T4 in total)")
 ASSUMPTIONS = ["only one side transmits at a time (the harness serialises transfers, as the statement assumes)",
                "retries, T1/T2/T4 time-outs and ENQ contention are outside the statement",
                "a corrupted length byte may leave both ends waiting; there only 'success' and 'delivery' are forbidden"]
